@@ -18,7 +18,7 @@ Definition prompt : Z := 1500000000.     (* 1.5 s *)
 
 Record oatt := OAtt { o_no : Z; o_start : Z; o_end : Z; o_out : Z }.   (* outcome: 0 ok 1 plain 2 noretry 3 canceled *)
 Record rcase := RCase {
-  r_iv : list Z; r_maxd : Z; r_cancel : option Z; r_pick0 : bool;
+  r_iv : list Z; r_maxd : Z; r_shrunk : bool; r_cancel : option Z; r_pick0 : bool;
   r_atts : list oatt; r_res : Z; r_te : Z
 }.
 
@@ -67,10 +67,12 @@ Definition retry_model_ok (c : rcase) : bool :=
   let calls := calls_of (r_iv c) 0 0 (r_atts c) in
   let calls' := if r_res c =? 3 then calls ++ [Call OOk 0 0] else calls in
   let '(atts, r, te) := do_with_retry (r_iv c) (r_maxd c) (r_cancel c) (r_pick0 c) calls' in
-  near_tie c || near_horizon c ||
+  (* the horizon is the one in the source unless the harness shrank it *)
+  (r_shrunk c || (r_maxd c =? max_retry_duration)) &&
+  (near_tie c || near_horizon c ||
   (forallb (fun k => (0 <=? c_late k) && (c_late k <=? late_bound)) calls &&
    atts_eqb atts (r_atts c) && res_match r (r_res c) &&
-   (te <=? r_te c) && (r_te c <=? te + late_bound)).
+   (te <=? r_te c) && (r_te c <=? te + late_bound))).
 
 Fixpoint pauses_ok (iv : list Z) (k : nat) (prev_end : Z) (l : list oatt) : bool :=
   match l with
@@ -263,10 +265,18 @@ Definition jb_spec_ok (c : jbcase) : bool :=
 
 (** * CA selection *)
 
-Record cacase := CACase { ca_ca : str; ca_test : str; ca_has_scheme : bool;
+Record cacase := CACase { ca_given : str; ca_given_test : str;   (* the template given to NewACMEIssuer *)
+                          ca_ca : str; ca_test : str; ca_has_scheme : bool;
                           ca_dir0 : str; ca_dir1 : str; ca_using0 : bool; ca_using1 : bool }.
 
+(** NewACMEIssuer: an empty CA is the default CA; an empty TestCA is the default test CA only
+    when the CA is the default one *)
+Definition effective_cas (ca test : str) : str * str :=
+  let ca' := if is_empty_name ca then default_acme_ca else ca in
+  (ca', if is_empty_name test && str_eqb ca' default_acme_ca then default_acme_test_ca else test).
+
 Definition ca_model_ok (c : cacase) : bool :=
+  (let (a, t) := effective_cas (ca_given c) (ca_given_test c) in str_eqb a (ca_ca c) && str_eqb t (ca_test c)) &&
   let norm := norm_url ca_scheme_sep ca_default_scheme in   (* secureCAURL's scheme rule, literals from the source *)
   str_eqb (directory_for norm (ca_ca c) (ca_test c) true) (ca_dir1 c) &&
   str_eqb (directory_for norm (ca_ca c) (ca_test c) false) (ca_dir0 c) &&
@@ -387,8 +397,8 @@ Inductive tcase := TRetry (c : rcase) | TJobs (c : jcase) | TCA (c : cacase) | T
 Definition get_zlist : dec (list Z) := get_list get_z.
 Definition get_oatt : dec oatt := (n <- get_z ;; s <- get_z ;; e <- get_z ;; o <- get_z ;; ret (OAtt n s e o))%Z.
 Definition get_rcase : dec rcase :=
-  (iv <- get_zlist ;; m <- get_z ;; cn <- get_opt get_z ;; p <- get_bool ;; l <- get_list get_oatt ;;
-   r <- get_z ;; te <- get_z ;; ret (RCase iv m cn p l r te))%Z.
+  (iv <- get_zlist ;; m <- get_z ;; sh <- get_bool ;; cn <- get_opt get_z ;; p <- get_bool ;; l <- get_list get_oatt ;;
+   r <- get_z ;; te <- get_z ;; ret (RCase iv m sh cn p l r te))%Z.
 Definition get_jobs_obs : dec jobs_obs :=
   (q <- get_list get_str ;; n <- get_list get_str ;; a <- get_nat ;; r <- get_list get_nat ;; st <- get_list get_nat ;;
    ret (JObs q n a r st))%Z.
@@ -396,8 +406,8 @@ Definition get_jop : dec jop :=
   (t <- get_z ;; i <- get_nat ;; n <- get_str ;; k <- get_z ;; o <- get_jobs_obs ;; ret (JOp t i n k o))%Z.
 Definition get_jcase : dec jcase := (m <- get_nat ;; l <- get_list get_jop ;; ret (JCase m l))%Z.
 Definition get_cacase : dec cacase :=
-  (a <- get_str ;; t <- get_str ;; h <- get_bool ;; d0 <- get_str ;; d1 <- get_str ;; u0 <- get_bool ;; u1 <- get_bool ;;
-   ret (CACase a t h d0 d1 u0 u1))%Z.
+  (ga <- get_str ;; gt <- get_str ;; a <- get_str ;; t <- get_str ;; h <- get_bool ;; d0 <- get_str ;; d1 <- get_str ;;
+   u0 <- get_bool ;; u1 <- get_bool ;; ret (CACase ga gt a t h d0 d1 u0 u1))%Z.
 Definition get_eord : dec eord := (d <- get_str ;; o <- get_z ;; ret (EOrd d o))%Z.
 Definition get_eatt : dec eatt := (n <- get_z ;; l <- get_list get_eord ;; r <- get_z ;; f <- get_z ;; ret (EAtt n l r f))%Z.
 Definition get_ecase : dec ecase :=
